@@ -8,6 +8,7 @@ before its pin); here each read is evaluated on exactly that version of the mode
 -/
 import Gkv.Model.World
 import Gkv.Model.AnyKey
+import Gkv.Model.CacheIO
 open Std
 
 namespace Gkv
@@ -18,6 +19,9 @@ structure DState where
   flushed : List (Nat × List String) := []
     -- SPECIFICATION ghost for C08: per store, what the store showed at each successful Flush, newest
     -- first.  Kept beside the model, never consulted by it: `revertspec` answers from this stack.
+  views : List ((Nat × Bytes) × Cache.CTree) := []
+    -- Model L: the cached view of (store, collection) as last reported by the implementation
+    -- (`cstatein`) and as transformed since by the model's own `cget/cmin/cmax/cevict`
 deriving Inhabited
 
 /-- the state a concurrent Flush must have persisted: collection i (in name order) as it was in
@@ -183,6 +187,65 @@ def dstepTokens (d : DState) (ts : List String) : DState × String :=
      | some f, some k, some c, some jb =>
        (d, showOpen (openStore f (crashImage (d.w.file f).hist k c ++ jb) cmpOfName))
      | _, _, _, _ => (d, "bad-op"))
+  | ["cstate", s, n] =>
+    -- reaches the model only when the implementation had no such store / collection to report on
+    (match s.toNat?, parseBytes n with
+     | some s, some (some n) =>
+       (match assocGet s d.w.stores with
+        | none => (d, "nostore")
+        | some st => match collsGet n st.colls with
+          | none => (d, "nocoll")
+          | some _ => (d, "bad-op"))
+     | _, _ => (d, "bad-op"))
+  | "cstatein" :: s :: n :: toks =>
+    -- the implementation's cached view of a collection (two-pass input): it must be a view of the
+    -- model's abstract tree (`Cache.Rep`, decided by `repB`); kept for the c-operations that follow
+    (match s.toNat?, parseBytes n, Cache.parseViewAll toks with
+     | some s, some (some n), some c =>
+       (match assocGet s d.w.stores with
+        | none => (d, "nostore")
+        | some st => match collsGet n st.colls with
+          | none => (d, "nocoll")
+          | some cl =>
+            if Cache.repB c cl.root then
+              ({ d with views := ((s, n), c) :: d.views.filter (fun v => v.1 ≠ (s, n)) }, "ok")
+            else (d, "bad:not-a-view-of-the-tree " ++ (Cache.ofTree cl.root).render))
+     | _, _, _ => (d, "bad-op"))
+  | "cget" :: s :: n :: rest | "cmin" :: s :: n :: rest | "cmax" :: s :: n :: rest
+  | "cevict" :: s :: n :: rest =>
+    -- GetItem / MinItem / MaxItem / EvictSomeItems on the cached view (Model L): the answer, the
+    -- file reads in order, the view afterwards
+    (match s.toNat?, parseBytes n with
+     | some s, some (some n) =>
+       (match assocGet s d.w.stores with
+        | none => (d, "nostore")
+        | some st => match collsGet n st.colls, st.file with
+          | none, _ => (d, "nocoll")
+          | some _, none => (d, "err-nofile")
+          | some cl, some f =>
+            match d.views.find? (fun v => v.1 = (s, n)) with
+            | none => (d, "noview")
+            | some (_, c) =>
+              let bytes := (d.w.file f).bytes
+              let fuel := cl.root.size + 2
+              let op : Option Cache.COp := match ts.head!, rest with
+                | "cget", [k, w] => (match parseBytes k with
+                    | some (some k) => some (.get k (w == "1")) | _ => none)
+                | "cmin", [w] => some (.min (w == "1"))
+                | "cmax", [w] => some (.max (w == "1"))
+                | "cevict", [bits] => some (.evict (bits.toList.map (· == '1')))
+                | _, _ => none
+              match op with
+              | none => (d, "bad-op")
+              | some op =>
+                -- `evictSomeItems` returns at once on a read-only store (a snapshot)
+                let noop := st.readOnly && (match op with | .evict _ => true | _ => false)
+                match (if noop then some (none, c, []) else Cache.stepC bytes cl.cmp.fn fuel c op) with
+                | none => (d, "err")
+                | some (res, c', rds) =>
+                  ({ d with views := ((s, n), c') :: d.views.filter (fun v => v.1 ≠ (s, n)) },
+                   Cache.renderOut res c' rds))
+     | _, _ => (d, "bad-op"))
   | _ =>
     let (w', o) := stepTokens2 d.w ts
     ({ d with w := w' }, o)
